@@ -749,9 +749,13 @@ qb_ipcs_dispatch_connection_request(int32_t fd, int32_t revents, void *data)
 	ssize_t avail;
 
 	if (c == NULL) {
-		res = -EINVAL;
-		goto dispatch_cleanup;
+		return -EINVAL;
 	}
+	/*
+	 * msg_process() may disconnect the connection (or drop the last
+	 * reference to it); keep it alive until we are done with it here.
+	 */
+	qb_ipcs_connection_ref(c);
 
 	if (revents & POLLNVAL) {
 		qb_util_log(LOG_DEBUG, "NVAL conn (%s)", c->description);
@@ -847,6 +851,7 @@ dispatch_cleanup:
 	if (res != 0) {
 		qb_ipcs_disconnect(c);
 	}
+	qb_ipcs_connection_unref(c);
 	return res;
 }
 
